@@ -33,10 +33,13 @@ def run_check(prop, plan, tier, seed, replay, t0):
     # 2. Lean: build the property's theorems and the model driver
     modules = plan.get("theorem_modules", [f"MinaProofs.Props.{m}" for m in prop_modules(prop)])
     targets = list(modules) + ["mina_model"]
-    if tier == "thorough":
-        targets += plan.get("kernel_modules", [])
     names = write_audit(prop)
     ok_build, log = lake_build(targets)
+    if tier == "thorough" and ok_build and plan.get("kernel_modules"):
+        kmods = [m for root in plan["kernel_modules"] for m in kernel_modules(root)]
+        ok_build, klog = lake_build_batched(kmods)
+        log += klog
+        if ok_build: notes.append(f"{len(kmods)} exhaustive kernel-evaluation modules built ({', '.join(plan['kernel_modules'])})")
     broken_decls = []
     if not ok_build:
         broken_decls = sorted({decl_at(x) for x in failing_decls(log)}) or ["lake build failed"]
